@@ -23,23 +23,36 @@ class Kinds(object):
         self.call_kinds = call_kinds or {}
 
     def guarded_dict(self, expr, upto):
-        """isinstance(<expr>, dict) holds at event index *upto* of the path."""
-        want = A.src(expr)
+        """isinstance(<expr>, dict) holds at event index *upto* of the path
+        (X.get(k) in the guard counts for X[k]); a store `<expr> = <dict-kinded value>`
+        establishes it as well."""
+        want = {A.src(expr)}
+        if isinstance(expr, ast.Subscript) and not isinstance(expr.slice, ast.Slice):
+            want.add("%s.get(%s)" % (A.src(expr.value), A.src(expr.slice)))
         root = A.root_name(expr)
         ok = False
-        for e in self.path.ev[:upto]:
+        for idx, e in enumerate(self.path.ev[:upto]):
             if e[0] == "cond":
                 for t, pol in A.literals(e[1], e[2]):
                     if isinstance(t, ast.Call) and A.call_name(t) == "isinstance" and len(t.args) == 2 \
-                            and A.src(t.args[0]) == want and "dict" in A.src(t.args[1]):
+                            and A.src(t.args[0]) in want and "dict" in A.src(t.args[1]):
                         ok = bool(pol)
-            elif e[0] == "stmt" and ok:
-                # a store to the expression or to its root name ends the guarantee
-                for n in A.walk_local(e[1]):
-                    if isinstance(n, ast.Name) and isinstance(n.ctx, ast.Store) and n.id == root:
-                        ok = False
-                    if isinstance(n, (ast.Subscript,)) and isinstance(n.ctx, ast.Store) and A.src(n) == want:
-                        ok = False
+            elif e[0] == "stmt":
+                s = e[1]
+                if isinstance(s, ast.Assign):
+                    for t in s.targets:
+                        if A.src(t) in want and not isinstance(t, ast.Name):
+                            ok = self.kind(s.value, idx) == DICT
+                        elif ok and isinstance(t, ast.Name) and t.id == root:
+                            ok = False
+                        elif ok and isinstance(t, (ast.Tuple, ast.List)) and root in A.target_names(t):
+                            ok = False
+                elif ok:
+                    for n in A.walk_local(s):
+                        if isinstance(n, ast.Name) and isinstance(n.ctx, (ast.Store, ast.Del)) and n.id == root:
+                            ok = False
+                        if isinstance(n, ast.Subscript) and isinstance(n.ctx, (ast.Store, ast.Del)) and A.src(n) in want:
+                            ok = False
             elif e[0] == "iter" and root in A.target_names(e[1].target):
                 ok = False
         return ok
@@ -100,7 +113,9 @@ class Kinds(object):
                 if how == "element":
                     k = self.kind(val, idx)
                     return self.element_kind(val, idx)
-                return MAYBE if how == "unpack" else OTHER
+                if how == "unpack":
+                    return DICT if expr.id in self.dict_params else MAYBE
+                return OTHER
             a = self.fn.args
             if a.vararg is not None and a.vararg.arg == expr.id:
                 return TUPLE
